@@ -169,6 +169,20 @@ def object_level(rep, rng, quick):
                 rep.violation("dense Gram matrix with method_integration='simpson': " + "; ".join(bad_s),
                               {"x": C.hexf(x), "X": C.hexf(X)})
         monitors_norm(rep, rng, x, X)
+        # history: the Gram matrix is a function of the curves the object holds NOW — statistics computed before the
+        # curves were replaced through the `values` setter must not leak into it
+        from FDApy.representation.values import DenseValues
+        Xn = np.round((X[::-1] * 0.5 + 3.0 + fd.dyadic_matrix(rng, n, m)) * 64) / 64
+        dh = fd.dense(x, X)
+        dh.mean(); dh.center(); dh.norm(); dh.inner_product(noise_variance=0)
+        dh.values = DenseValues(Xn)
+        Gh = dh.inner_product(noise_variance=0)
+        Gf = fd.dense(x, Xn).inner_product(noise_variance=0)
+        rep.case(("gram-history", X.tobytes()), kind="dense-gram/after-values-setter")
+        if not np.array_equal(Gh, Gf):
+            rep.violation(f"Gram matrix after replacing the curves through the values setter differs from the Gram matrix of a fresh "
+                          f"dataset with the same curves (max {np.max(np.abs(Gh - Gf)):.3g}; rows sum to {np.max(np.abs(Gh.sum(axis=1))):.3g})",
+                          {"x": C.hexf(x), "X_before": C.hexf(X), "X_after": C.hexf(Xn)})
         if i % 3 == 0:
             # 2-D dense data
             m2 = int(rng.integers(3, 6))
